@@ -112,50 +112,55 @@ func wireString(rt *rapid.T, tn string) (w []byte, feat *Features, stale, mutate
 func TestC08(t *testing.T) {
 	Col.Property = "C08"
 	ReplayRegress(t, "C08")
-	for _, tn := range MyTypes() {
+	RunProps(t, rpC08(MyTypes()))
+}
+
+func init() { RapidProps["C08"] = func() []RProp { return rpC08(TypeNames) } }
+
+func rpC08(types []string) (out []RProp) {
+	for _, tn := range types {
 		tn := tn
-		t.Run(tn, func(t *testing.T) {
-			CheckProp(t, "C08", "c08", tn, func(rt *rapid.T) *CaseBytes {
-				pre, _ := genPrelude(rt, tn, false)
-				w, ft, stale, mutated := wireString(rt, tn)
-				c := &CaseBytes{Type: tn, W: w, Pre: pre}
-				// accepted? (classification only; the oracle decides again on its own)
-				_, _, err, pan := LibDecode(tn, w)
-				accepted := err == nil && pan == nil
-				cls := []string{}
-				if len(pre) > 0 {
-					cls = append(cls, "after-prior-calls")
-				}
-				if accepted {
-					cls = append(cls, "accepted")
-				} else {
-					cls = append(cls, "rejected(nothing demanded)")
-				}
-				nt := accepted && len(w) > 0 && (ft.InteriorPad > 0 || ft.AllPad > 0 || ft.NegOrNaN > 0 || stale || mutated)
-				if stale {
-					cls = append(cls, "stale-computed-fields")
-				}
-				if mutated && accepted {
-					cls = append(cls, "mutated-and-accepted")
-				}
-				if ft.AllPad > 0 {
-					cls = append(cls, "all-pad-field")
-				}
-				if ft.InteriorPad > 0 {
-					cls = append(cls, "pad-byte-inside-field")
-				}
-				if ft.NegOrNaN > 0 {
-					cls = append(cls, "neg-or-nan")
-				}
-				Col.Case(Hash64([]byte(tn), w), nt, cls...)
-				Col.Program(tn)
-				if nt && Col.WantSample("wire") && len(w) < 200 {
-					Col.Sample("wire", map[string]any{"type": tn, "w": hexClip(w), "stale": stale, "mutated": mutated})
-				}
-				return c
-			}, oracleC08)
-		})
+		out = append(out, MkProp("C08", "c08", tn, func(rt *rapid.T) *CaseBytes {
+			pre, _ := genPrelude(rt, tn, false)
+			w, ft, stale, mutated := wireString(rt, tn)
+			c := &CaseBytes{Type: tn, W: w, Pre: pre}
+			// accepted? (classification only; the oracle decides again on its own)
+			_, _, err, pan := LibDecode(tn, w)
+			accepted := err == nil && pan == nil
+			cls := []string{}
+			if len(pre) > 0 {
+				cls = append(cls, "after-prior-calls")
+			}
+			if accepted {
+				cls = append(cls, "accepted")
+			} else {
+				cls = append(cls, "rejected(nothing demanded)")
+			}
+			nt := accepted && len(w) > 0 && (ft.InteriorPad > 0 || ft.AllPad > 0 || ft.NegOrNaN > 0 || stale || mutated)
+			if stale {
+				cls = append(cls, "stale-computed-fields")
+			}
+			if mutated && accepted {
+				cls = append(cls, "mutated-and-accepted")
+			}
+			if ft.AllPad > 0 {
+				cls = append(cls, "all-pad-field")
+			}
+			if ft.InteriorPad > 0 {
+				cls = append(cls, "pad-byte-inside-field")
+			}
+			if ft.NegOrNaN > 0 {
+				cls = append(cls, "neg-or-nan")
+			}
+			Col.Case(Hash64([]byte(tn), w), nt, cls...)
+			Col.Program(tn)
+			if nt && Col.WantSample("wire") && len(w) < 200 {
+				Col.Sample("wire", map[string]any{"type": tn, "w": hexClip(w), "stale": stale, "mutated": mutated})
+			}
+			return c
+		}, oracleC08))
 	}
+	return
 }
 
 // ---------------------------------------------------------------- C15
@@ -462,57 +467,62 @@ func listShape(v *Value, out *[]string) {
 func TestC15(t *testing.T) {
 	Col.Property = "C15"
 	ReplayRegress(t, "C15")
-	for _, tn := range MyTypes() {
+	RunProps(t, rpC15(MyTypes()))
+}
+
+func init() { RapidProps["C15"] = func() []RProp { return rpC15(TypeNames) } }
+
+func rpC15(types []string) (out []RProp) {
+	for _, tn := range types {
 		tn := tn
-		t.Run(tn, func(t *testing.T) {
-			CheckProp(t, "C15", "c15", tn, func(rt *rapid.T) *CaseC15 {
-				o := DefaultOpts(Wire)
-				o.BigProb, o.MaxList = 80, 1000
-				wv, _ := GenValue(rt, tn, o)
-				w := Render(wv, nil).Bytes
-				cls := []string{}
-				if len(w) > 0 && rapid.IntRange(0, 9).Draw(rt, "truncate") == 0 {
-					w = w[:rapid.IntRange(0, len(w)-1).Draw(rt, "cut")]
-					cls = append(cls, "truncated-input(both must fail alike)")
-				}
-				c := &CaseC15{Type: tn, W: w}
-				if rel := rapid.IntRange(0, 3).Draw(rt, "related"); rel == 0 {
-					// the receiver holds a message that differs from the incoming one only slightly
-					// (one field changed, two equal-width texts swapped, one text reversed: same length, same byte sum)
-					c.Via = "decode"
-					c.Dirty = relatedValue(rt, wv)
-					cls = append(cls, "dirty-is-a-near-copy-of-the-incoming-message")
-				} else if rapid.Bool().Draw(rt, "via") {
-					c.Via = "decode"
-					d, _ := GenValue(rt, tn, o)
-					c.Dirty = d
-				} else {
-					c.Via = "fill"
-					oa := DefaultOpts(Arbitrary)
-					oa.BigProb, oa.MaxList = 80, 1000
-					d, _ := GenValue(rt, tn, oa)
-					c.Dirty = d
-				}
-				cls = append(cls, "dirty-via:"+c.Via)
-				var a, b []string
-				listShape(wv, &a)
-				listShape(c.Dirty, &b)
-				nt := fmt.Sprint(a) != fmt.Sprint(b)
-				if nt {
-					cls = append(cls, "receiver-differs-in-list-length-or-part-type")
-				}
-				if len(cls) > 0 && cls[0] == "dirty-is-a-near-copy-of-the-incoming-message" || len(cls) > 1 && cls[1] == "dirty-is-a-near-copy-of-the-incoming-message" {
-					nt = true
-				}
-				Col.Case(Hash64(JSONOf(c)), nt, cls...)
-				Col.Program(tn)
-				if nt && Col.WantSample("c15") && len(JSONOf(c)) < 2500 {
-					Col.Sample("c15", c)
-				}
-				return c
-			}, oracleC15)
-		})
+		out = append(out, MkProp("C15", "c15", tn, func(rt *rapid.T) *CaseC15 {
+			o := DefaultOpts(Wire)
+			o.BigProb, o.MaxList = 80, 1000
+			wv, _ := GenValue(rt, tn, o)
+			w := Render(wv, nil).Bytes
+			cls := []string{}
+			if len(w) > 0 && rapid.IntRange(0, 9).Draw(rt, "truncate") == 0 {
+				w = w[:rapid.IntRange(0, len(w)-1).Draw(rt, "cut")]
+				cls = append(cls, "truncated-input(both must fail alike)")
+			}
+			c := &CaseC15{Type: tn, W: w}
+			if rel := rapid.IntRange(0, 3).Draw(rt, "related"); rel == 0 {
+				// the receiver holds a message that differs from the incoming one only slightly
+				// (one field changed, two equal-width texts swapped, one text reversed: same length, same byte sum)
+				c.Via = "decode"
+				c.Dirty = relatedValue(rt, wv)
+				cls = append(cls, "dirty-is-a-near-copy-of-the-incoming-message")
+			} else if rapid.Bool().Draw(rt, "via") {
+				c.Via = "decode"
+				d, _ := GenValue(rt, tn, o)
+				c.Dirty = d
+			} else {
+				c.Via = "fill"
+				oa := DefaultOpts(Arbitrary)
+				oa.BigProb, oa.MaxList = 80, 1000
+				d, _ := GenValue(rt, tn, oa)
+				c.Dirty = d
+			}
+			cls = append(cls, "dirty-via:"+c.Via)
+			var a, b []string
+			listShape(wv, &a)
+			listShape(c.Dirty, &b)
+			nt := fmt.Sprint(a) != fmt.Sprint(b)
+			if nt {
+				cls = append(cls, "receiver-differs-in-list-length-or-part-type")
+			}
+			if len(cls) > 0 && cls[0] == "dirty-is-a-near-copy-of-the-incoming-message" || len(cls) > 1 && cls[1] == "dirty-is-a-near-copy-of-the-incoming-message" {
+				nt = true
+			}
+			Col.Case(Hash64(JSONOf(c)), nt, cls...)
+			Col.Program(tn)
+			if nt && Col.WantSample("c15") && len(JSONOf(c)) < 2500 {
+				Col.Sample("c15", c)
+			}
+			return c
+		}, oracleC15))
 	}
+	return
 }
 
 // ---------------------------------------------------------------- C16
@@ -629,53 +639,58 @@ func init() {
 func TestC16(t *testing.T) {
 	Col.Property = "C16"
 	ReplayRegress(t, "C16")
-	for _, tn := range MyTypes() {
+	RunProps(t, rpC16(MyTypes()))
+}
+
+func init() { RapidProps["C16"] = func() []RProp { return rpC16(TypeNames) } }
+
+func rpC16(types []string) (out []RProp) {
+	for _, tn := range types {
 		tn := tn
-		t.Run(tn, func(t *testing.T) {
-			CheckProp(t, "C16", "c16", tn, func(rt *rapid.T) *CaseC16 {
-				o := DefaultOpts(Canonical)
-				o.BigProb, o.MaxList = 80, 1000
-				v, ft := GenValue(rt, tn, o)
-				ov, _ := GenValue(rt, tn, o)
-				c := &CaseC16{Type: tn, V: v, Other: ov}
-				switch rapid.IntRange(0, 5).Draw(rt, "prior") {
-				case 0: // the previous message of the same type: one number stepped by one, possibly one text different
-					pv := v.Clone()
-					stepOneNumber(rt, pv)
-					if rapid.Bool().Draw(rt, "alsotext") {
-						pv = relatedValue(rt, pv)
-					}
-					c.Pre = []PreOp{{Kind: "dec", Type: tn, W: Render(pv, nil).Bytes}}
-				case 1: // a message of a related type of the protocol (sharing field names); this message then carries the
-					// same values in its like-named fields (an order and its cancel request, a report and its acknowledgement)
-					rel := relatedTypes(tn)
-					ot := rel[rapid.IntRange(0, min(len(rel), 6)-1).Draw(rt, "othertype")]
-					pv, _ := GenValue(rt, ot, o)
-					correlate(v, pv)
-					c.Pre = []PreOp{{Kind: "dec", Type: ot, W: Render(pv, nil).Bytes}}
-				case 2:
-					c.Pre, _ = genPrelude(rt, tn, false)
+		out = append(out, MkProp("C16", "c16", tn, func(rt *rapid.T) *CaseC16 {
+			o := DefaultOpts(Canonical)
+			o.BigProb, o.MaxList = 80, 1000
+			v, ft := GenValue(rt, tn, o)
+			ov, _ := GenValue(rt, tn, o)
+			c := &CaseC16{Type: tn, V: v, Other: ov}
+			switch rapid.IntRange(0, 5).Draw(rt, "prior") {
+			case 0: // the previous message of the same type: one number stepped by one, possibly one text different
+				pv := v.Clone()
+				stepOneNumber(rt, pv)
+				if rapid.Bool().Draw(rt, "alsotext") {
+					pv = relatedValue(rt, pv)
 				}
-				nt := ft.TextOrList > 0
-				cls := []string{}
-				if nt {
-					cls = append(cls, "has-text-or-list")
-				} else {
-					cls = append(cls, "numbers-only")
-				}
-				if ft.ListNot1 > 0 || ft.BigList > 0 {
-					cls = append(cls, "has-list")
-				}
-				if ft.Dyn > 0 {
-					cls = append(cls, "has-dynamic-part")
-				}
-				Col.Case(Hash64(JSONOf(c)), nt, cls...)
-				Col.Program(tn)
-				if nt && Col.WantSample("c16") && len(JSONOf(c)) < 2000 {
-					Col.Sample("c16", c)
-				}
-				return c
-			}, oracleC16)
-		})
+				c.Pre = []PreOp{{Kind: "dec", Type: tn, W: Render(pv, nil).Bytes}}
+			case 1: // a message of a related type of the protocol (sharing field names); this message then carries the
+				// same values in its like-named fields (an order and its cancel request, a report and its acknowledgement)
+				rel := relatedTypes(tn)
+				ot := rel[rapid.IntRange(0, min(len(rel), 6)-1).Draw(rt, "othertype")]
+				pv, _ := GenValue(rt, ot, o)
+				correlate(v, pv)
+				c.Pre = []PreOp{{Kind: "dec", Type: ot, W: Render(pv, nil).Bytes}}
+			case 2:
+				c.Pre, _ = genPrelude(rt, tn, false)
+			}
+			nt := ft.TextOrList > 0
+			cls := []string{}
+			if nt {
+				cls = append(cls, "has-text-or-list")
+			} else {
+				cls = append(cls, "numbers-only")
+			}
+			if ft.ListNot1 > 0 || ft.BigList > 0 {
+				cls = append(cls, "has-list")
+			}
+			if ft.Dyn > 0 {
+				cls = append(cls, "has-dynamic-part")
+			}
+			Col.Case(Hash64(JSONOf(c)), nt, cls...)
+			Col.Program(tn)
+			if nt && Col.WantSample("c16") && len(JSONOf(c)) < 2000 {
+				Col.Sample("c16", c)
+			}
+			return c
+		}, oracleC16))
 	}
+	return
 }
